@@ -407,6 +407,23 @@ def scn_history(ctx):
                 nn = 1 + ch.draw(60, "n")
                 np.random.seed(s)
                 r1 = [np.array(x) for x in g(nn)]
+                if ch.draw(8, "plot") == 7:
+                    import matplotlib.pyplot as plt
+
+                    np.random.seed(s)
+                    try:
+                        rp = [np.array(x) for x in g(nn, plot="geom_beta_tr_hist")]
+                        ctx.probes["call_with_plot_hook"] += 1
+                        if any(histsim.abytes(a_) != histsim.abytes(b_) for a_, b_ in zip(r1, rp)):
+                            ctx.violate("c11.plot_changes_results", f"op {opi} RegionGeom(N={nn}, plot=geom_beta_tr_hist) differs from the same call without the plot", sig="RegionGeom:plot")
+                    except Violation:
+                        raise
+                    except Exception:  # noqa: BLE001
+                        ctx.probes["plot_hook_raised"] += 1
+                    finally:
+                        plt.close("all")
+                    np.random.seed(s)
+                    g(nn)
                 o1 = _geom_outputs(ctx, g, nn) or []
                 np.random.seed(s)
                 uu = np.random.rand(4, nn)
@@ -479,6 +496,22 @@ def scn_history(ctx):
                 xb = sp(b)
                 np.random.seed(s)
                 x2 = sp(a + b)
+                if ch.draw(8, "plot") == 7:
+                    # the plot hook must not change what the stage returns
+                    import matplotlib.pyplot as plt
+
+                    np.random.seed(s)
+                    try:
+                        x3 = sp(a + b, plot="spectra_histogram")
+                        ctx.probes["call_with_plot_hook"] += 1
+                        if histsim.abytes(x1[0]) != histsim.abytes(x3[0]):
+                            ctx.violate("c11.plot_changes_results", f"op {opi} Spectra(N={a + b}, plot=spectra_histogram) differs from the same call without the plot", sig="Spectra:plot")
+                    except Violation:
+                        raise
+                    except Exception:  # noqa: BLE001
+                        ctx.probes["plot_hook_raised"] += 1
+                    finally:
+                        plt.close("all")
                 if histsim.abytes(x1[0]) != histsim.abytes(x2[0]) or x1[1:] != x2[1:]:
                     ctx.violate("c11.repeat", f"op {opi} Spectra(N={a + b}) repeated with the same generator state gives different results", sig="Spectra")
                 if histsim.abytes(np.concatenate([xa[0], xb[0]])) != histsim.abytes(x1[0]):
